@@ -22,19 +22,25 @@ Definition is_placeholder (v : json) : bool := is_obj v.
 (* key[len("sp."):] *)
 Definition strip_prefix (k : str) : str := skipn 3 k.
 
+(* some dotted key of the selected jobs extends [k]: a mapping held under [k] is not empty *)
+Definition key_extended (c : corpus) (k : str) : bool :=
+  existsb (str_prefix (k ++ [dot])) (dotted_keys c).
+
+(* is_const of _build_job_statepoint_index: one slot holding every job; when that slot is the
+   _DictPlaceholder the mappings only agree if all of them are empty *)
+Definition schema_const (c : corpus) (k : str) : bool :=
+  match build_index c k with
+  | [(v, ids)] => Nat.eqb (length ids) (length c) && negb (is_placeholder v && key_extended c k)
+  | _ => false
+  end.
+
 (* the (key, stored values) pairs that detect_schema reports, before grouping by type *)
 Definition detect_schema (exclude_const : bool) (jobs : list (id * json)) : list (str * list json) :=
   let c := sp_corpus jobs in
-  let n := length c in
   flat_map (fun k =>
     if str_prefix (s_sp ++ [dot]) k then
-      let idx := build_index c k in
-      let const := match idx with
-                   | [(_, ids)] => Nat.eqb (length ids) n
-                   | _ => false
-                   end in
-      if exclude_const && const then []
-      else [(strip_prefix k, filter (fun v => negb (is_placeholder v)) (map fst idx))]
+      if exclude_const && schema_const c k then []
+      else [(strip_prefix k, filter (fun v => negb (is_placeholder v)) (map fst (build_index c k)))]
     else []) (dotted_keys c).
 
 (* ---------- reference: direct summary of the state points ---------- *)
